@@ -268,6 +268,33 @@ Theorem translate_frames_spec : forall id aa st s allow_rc,
         else map (frame_plus (ncbi_tbl id) s) [0; 1; 2]%nat).
 Proof. exact translate_frames_spec_lemma. Qed.
 
+(** app.translate.best_frame (require_stop=False): the FIRST frame, in the order +1 +2 +3 -1 -2 -3,
+    whose translation (the specification's: minus frames are frames of the reverse complement)
+    holds no stop codon other than a terminal one *)
+Theorem best_frame_is_first_open_frame : forall id aa st s allow_rc f,
+  In (id, aa, st) new_codes -> canon_str s -> 2 < zlen s ->
+  best_frame aa s allow_rc = Ok f ->
+  let frames := map strip_terminal_stop (spec_frames (ncbi_tbl id) s allow_rc) in
+  (1 <= f <= 3 \/ (allow_rc = true /\ -3 <= f <= -1)) /\
+  has_stop (nth (frame_index f) frames []) = false /\
+  (forall j, (j < frame_index f)%nat -> has_stop (nth j frames []) = true).
+Proof. exact best_frame_spec_lemma. Qed.
+
+(** select_translatable (frame chosen by best_frame): the sequence kept is [frame_window s f] -- the
+    whole codons of s (f > 0) or of the REVERSE COMPLEMENT of s (f < 0) from offset |f|-1 --,
+    minus a terminal stop codon when trimming; it translates to exactly that frame *)
+Theorem select_translatable_keeps_the_frame : forall id aa st s allow_rc trim f,
+  In (id, aa, st) new_codes -> canon_str s -> 2 < zlen s ->
+  best_frame aa s allow_rc = Ok f ->
+  select_translatable_one true aa s allow_rc trim
+  = if trim then trim_spec (ncbi_tbl id) false (frame_window s f) else Some (frame_window s f).
+Proof. exact select_one_spec_lemma. Qed.
+
+Theorem selected_window_translates_to_the_frame : forall tbl s f,
+  translate_spec tbl (frame_window s f)
+  = (if f <? 0 then frame_minus tbl s (Z.to_nat (Z.abs f - 1)) else frame_plus tbl s (Z.to_nat (Z.abs f - 1))).
+Proof. exact frame_window_translation. Qed.
+
 (* ------------------------------------------------------------------ degenerate codons *)
 
 (** old-style Sequence.get_translation on a codon of IUPAC nucleotide symbols: the residues of ALL
